@@ -257,6 +257,43 @@ def plain_run(files: dict, *, storage_from=None, call_tests=True):
     return logs, test_exc, exec_exc, globs
 
 
+class Namespace:
+    """One plain-Python namespace (header executed once, vp imported once) in which model
+    inputs and rewritten snapshot arguments are evaluated *together*, so that class
+    identities agree.  inline-snapshot is inactive; externals use a scratch storage."""
+
+    def __init__(self, header=HEADER_FULL):
+        from inline_snapshot._external import DiscStorage
+        from inline_snapshot._global_state import state
+
+        self.dir = new_dir("ns")
+        write_project(self.dir, {})
+        old_path = list(sys.path)
+        sys.path.insert(0, str(self.dir))
+        _purge_modules()
+        self.g = {"__name__": "ns"}
+        self.storage = DiscStorage(self.dir / ".storage")
+        try:
+            exec(header, self.g)
+        finally:
+            sys.path[:] = old_path
+            _purge_modules()
+        self._state = state
+
+    def eval(self, text):
+        st = self._state()
+        assert not st.active
+        old = st.storage
+        st.storage = self.storage
+        try:
+            return eval(text, self.g)
+        finally:
+            st.storage = old
+
+    def close(self):
+        shutil.rmtree(self.dir, ignore_errors=True)
+
+
 # ---------------------------------------------------------------------------------------
 # locating snapshot calls in source text (independent of asttokens)
 
